@@ -1,3 +1,255 @@
-(* placeholder, replaced below *)
+(* C13 -- what the property asks of the memory views, stated without reference to how the model
+   computes.  Definitions only.
+
+   (1) Confinement: predicates on the controller calls of a history.
+   (2) The abstract object: ONE fixed-length file (a list of bytes that never changes length) seen
+       through windows [lo, hi) with one cursor each.  A cursor may be any integer; bytes move only
+       at positions inside the window.  Positions are relative to the start of the file; addresses
+       do not occur.
+   (3) The abstraction that ties a model state to such a file. *)
 From Coq Require Import ZArith List Bool.
 Require Import Rig.Model.Base Rig.Model.MemIO.
+Import ListNotations.
+Open Scope Z_scope.
+
+(* ---------------------------------------------------------------------------------------- *)
+(* (1) confinement                                                                            *)
+(* ---------------------------------------------------------------------------------------- *)
+
+(* a controller access [a, a+n) lies inside [lo, hi) and is not empty *)
+Definition call_within (lo hi : Z) (c : call) : Prop :=
+  match c with
+  | CRead a n => lo <= a /\ a + n <= hi /\ 0 < n
+  | CWrite a bs => lo <= a /\ a + zlen bs <= hi /\ 0 < zlen bs
+  | CFree _ => False
+  end.
+
+(* an event of a history: the operation, the state it ran in, what it produced *)
+Definition confined_event (e : state * op * output) : Prop :=
+  let '(st, o, out) := e in
+  match o with
+  | OView i _ =>
+      (* every access lies in the range of the view the method was called on *)
+      forall c, In c (o_calls out) ->
+        exists v, nth_error (st_views st) i = Some v /\ call_within (v_start v) (v_end v) c
+  | OFree =>
+      (* free() touches no memory: its only call is sdram_free(start of the allocation) *)
+      forall c, In c (o_calls out) ->
+        exists root, nth_error (st_views st) 0 = Some root /\ c = CFree (v_start root)
+  end.
+
+(* every view is a well-formed range inside the allocation (= the range of view 0) *)
+Definition views_inside (st : state) : Prop :=
+  match st_views st with
+  | [] => True
+  | root :: _ => Forall (fun v => v_start root <= v_start v /\ v_start v <= v_end v /\ v_end v <= v_end root)
+                        (st_views st)
+  end.
+
+(* an event that slices view i successfully: the new view's range is inside view i's, and it is the
+   view appended to the list *)
+Definition nested_event (e : state * op * output) : Prop :=
+  let '(st, o, out) := e in
+  match o with
+  | OView i (Slice a b step) =>
+      forall s' e', o_res out = Ok (VView s' e') ->
+        exists v, nth_error (st_views st) i = Some v /\ v_start v <= s' /\ s' <= e' /\ e' <= v_end v
+  | _ => True
+  end.
+
+(* ---------------------------------------------------------------------------------------- *)
+(* slices: the sub-range a Python slice names in a sequence of n items                        *)
+(* ---------------------------------------------------------------------------------------- *)
+
+(* the index a bound names: negative bounds count from the end; an absent start is 0, an absent stop n *)
+Definition named_start (n : Z) (a : option Z) : Z :=
+  match a with None => 0 | Some x => if x <? 0 then n + x else x end.
+Definition named_stop (n : Z) (b : option Z) : Z :=
+  match b with None => n | Some x => if x <? 0 then n + x else x end.
+
+(* position p of a sequence of n items belongs to seq[a:b] *)
+Definition in_slice (n : Z) (a b : option Z) (p : Z) : Prop :=
+  0 <= p < n /\ named_start n a <= p < named_stop n b.
+
+(* the clipped bounds (what slice(a, b).indices(n) returns, with stop raised to start when reversed) *)
+Definition clip (n x : Z) : Z := if x <? 0 then Z.max 0 (n + x) else Z.min n x.
+Definition clip_start (n : Z) (a : option Z) : Z := match a with None => 0 | Some x => clip n x end.
+Definition clip_stop (n : Z) (b : option Z) : Z := match b with None => n | Some x => clip n x end.
+
+(* ---------------------------------------------------------------------------------------- *)
+(* (2) the fixed-length file                                                                  *)
+(* ---------------------------------------------------------------------------------------- *)
+Record window := mkWindow { w_lo : Z; w_hi : Z; w_pos : Z; w_closed : bool }.
+Record afile := mkAFile { a_data : list Z; a_wins : list window; a_freed : bool }.
+
+Definition wlen (w : window) : Z := w_hi w - w_lo w.
+
+(* bytes that move when `req` bytes are asked for at cursor `pos` of a window of `n` bytes:
+   nothing exists before position 0, nothing beyond position n *)
+Definition transfer (pos req n : Z) : Z :=
+  if pos <? 0 then 0 else Z.max 0 (Z.min req (n - pos)).
+
+(* a truncation warning is due when the range asked for, [pos, pos + req), is not inside [0, n] *)
+Definition warned (pos req n : Z) : bool :=
+  (pos + req >? n) || ((pos <? 0) && (req >? 0)).
+
+(* bytes [p, p+k) of the file; the file with bs stored at p (same length when p + |bs| <= length) *)
+Definition sub (d : list Z) (p k : Z) : list Z := firstn (Z.to_nat k) (skipn (Z.to_nat p) d).
+Definition splice (d : list Z) (p : Z) (bs : list Z) : list Z :=
+  firstn (Z.to_nat p) d ++ bs ++ skipn (Z.to_nat p + length bs) d.
+
+Inductive fop :=
+| FSeekSet (n : Z)            (* file.seek(n, 0): position n *)
+| FSeekCur (n : Z)            (* file.seek(n, 1): position + n *)
+| FSeekEnd (n : Z)            (* file.seek(n, 2): length + n *)
+| FSeekBad                    (* any other `whence`: ValueError *)
+| FRead (n : Z)               (* n < 0: everything up to the end *)
+| FWrite (bs : list Z)
+| FSlice (a b step : option Z)
+| FTell | FLen | FAddress | FFlush | FClose.
+
+Inductive aop := AWin (i : nat) (o : fop) | AFree.
+
+(* what a file operation shows: the value (positions relative to the file: [VView lo hi],
+   [VAddr position in the file]) and whether a truncation warning was given *)
+Definition aout := (result value * bool)%type.
+
+Definition set_pos (w : window) (p : Z) : window := mkWindow (w_lo w) (w_hi w) p (w_closed w).
+
+Definition wstep (fr : bool) (d : list Z) (w : window) (o : fop)
+  : window * option window * list Z * aout :=
+  let gone := w_closed w || fr in
+  match o with
+  | FLen => (w, None, d, (Ok (VInt (wlen w)), false))
+  | FClose =>
+      if w_closed w then (w, None, d, (Ok VNone, false))
+      else if fr then (w, None, d, (Failed 0, false))
+      else (mkWindow (w_lo w) (w_hi w) (w_pos w) true, None, d, (Ok VNone, false))
+  | _ =>
+    if gone then (w, None, d, (Failed 0, false)) else
+    match o with
+    | FSeekSet n => (set_pos w n, None, d, (Ok VNone, false))
+    | FSeekCur n => (set_pos w (w_pos w + n), None, d, (Ok VNone, false))
+    | FSeekEnd n => (set_pos w (wlen w + n), None, d, (Ok VNone, false))
+    | FSeekBad => (w, None, d, (Failed 1, false))
+    | FRead n =>
+        let req := if n <? 0 then wlen w - w_pos w else n in
+        let k := transfer (w_pos w) req (wlen w) in
+        (set_pos w (w_pos w + k), None, d,
+         (Ok (VBytes (sub d (w_lo w + w_pos w) k)), warned (w_pos w) req (wlen w)))
+    | FWrite bs =>
+        let k := transfer (w_pos w) (zlen bs) (wlen w) in
+        (set_pos w (w_pos w + k), None,
+         (if 0 <? k then splice d (w_lo w + w_pos w) (firstn (Z.to_nat k) bs) else d),
+         (Ok (VInt k), warned (w_pos w) (zlen bs) (wlen w)))
+    | FSlice a b step =>
+        if contiguous step then
+          let s := clip_start (wlen w) a in
+          let e := Z.max s (clip_stop (wlen w) b) in
+          let nw := mkWindow (w_lo w + s) (w_lo w + e) 0 false in
+          (w, Some nw, d, (Ok (VView (w_lo nw) (w_hi nw)), false))
+        else (w, None, d, (Failed 1, false))
+    | FTell => (w, None, d, (Ok (VInt (w_pos w)), false))
+    | FAddress => (w, None, d, (Ok (VAddr (w_lo w + w_pos w)), false))
+    | FFlush => (w, None, d, (Ok VNone, false))
+    | FLen | FClose => (w, None, d, (OtherError, false))     (* unreachable: handled above *)
+    end
+  end.
+
+Definition astep (f : afile) (o : aop) : afile * aout :=
+  match o with
+  | AWin i fo =>
+      match nth_error (a_wins f) i with
+      | None => (f, (OtherError, false))
+      | Some w =>
+          let '(w', nw, d', out) := wstep (a_freed f) (a_data f) w fo in
+          (mkAFile d' (set_nth i w' (a_wins f) ++ opt_list nw) (a_freed f), out)
+      end
+  | AFree =>
+      match a_wins f with
+      | [] => (f, (OtherError, false))
+      | _ :: _ => if a_freed f then (f, (Failed 0, false))
+                  else (mkAFile (a_data f) (a_wins f) true, (Ok VNone, false))
+      end
+  end.
+
+Fixpoint atrace (f : afile) (ops : list aop) : list aout :=
+  match ops with
+  | [] => []
+  | o :: rest => let '(f', out) := astep f o in out :: atrace f' rest
+  end.
+
+Fixpoint arun (f : afile) (ops : list aop) : afile :=
+  match ops with
+  | [] => f
+  | o :: rest => arun (fst (astep f o)) rest
+  end.
+
+(* the file a MemoryIO starts as: one window over everything, cursor 0 *)
+Definition afile_init (d : list Z) : afile := mkAFile d [mkWindow 0 (zlen d) 0 false] false.
+
+(* ---------------------------------------------------------------------------------------- *)
+(* (3) the abstraction                                                                        *)
+(* ---------------------------------------------------------------------------------------- *)
+
+(* which file operation a method call is.  NOTE seek(n, 2): the code computes len - n, so the call
+   seek(n, 2) is the FILE operation seek_end(-n).  (A file's own seek(n, 2) is len + n: see
+   C13_seek_end_sign_refuted.) *)
+Definition abs_vop (o : vop) : fop :=
+  match o with
+  | Seek n wh => if wh =? 0 then FSeekSet n else if wh =? 1 then FSeekCur n
+                 else if wh =? 2 then FSeekEnd (- n) else FSeekBad
+  | Read n => FRead n
+  | Write bs => FWrite bs
+  | Slice a b step => FSlice a b step
+  | Tell => FTell | Len => FLen | Address => FAddress | Flush => FFlush | Close => FClose
+  end.
+
+Definition abs_op (o : op) : aop :=
+  match o with OView i vo => AWin i (abs_vop vo) | OFree => AFree end.
+
+(* the literal reading, under which seek(n, 2) would be the file's seek(n, 2) *)
+Definition abs_op_literal (o : op) : aop :=
+  match o with
+  | OView i (Seek n wh) => AWin i (if wh =? 2 then FSeekEnd n else abs_vop (Seek n wh))
+  | _ => abs_op o
+  end.
+
+Definition view_is (base : Z) (v : view) (w : window) : Prop :=
+  v_start v = base + w_lo w /\ v_end v = base + w_hi w /\ v_off v = w_pos w /\ v_closed v = w_closed w.
+
+(* the state st is the file f placed at address base *)
+Definition represents (base : Z) (st : state) (f : afile) : Prop :=
+  Forall2 (view_is base) (st_views st) (a_wins f)
+  /\ st_freed st = a_freed f
+  /\ mem_read (st_mem st) base (zlen (a_data f)) = a_data f
+  /\ Forall (fun w => 0 <= w_lo w /\ w_lo w <= w_hi w /\ w_hi w <= zlen (a_data f)) (a_wins f).
+
+Definition value_is (base : Z) (x y : value) : Prop :=
+  match x, y with
+  | VView s e, VView lo hi => s = base + lo /\ e = base + hi
+  | VAddr a, VAddr p => a = base + p
+  | VNone, VNone => True
+  | VInt a, VInt b => a = b
+  | VBytes a, VBytes b => a = b
+  | _, _ => False
+  end.
+
+Definition result_is (base : Z) (x y : result value) : Prop :=
+  match x, y with
+  | Ok a, Ok b => value_is base a b
+  | Failed j, Failed k => j = k
+  | OtherError, OtherError => True
+  | _, _ => False
+  end.
+
+(* what the caller of a method sees equals what the caller of the file operation sees *)
+Definition output_is (base : Z) (o : output) (a : aout) : Prop :=
+  result_is base (o_res o) (fst a) /\ (0 <? o_warns o) = snd a.
+
+(* ---------------------------------------------------------------------------------------- *)
+(* dead views                                                                                 *)
+(* ---------------------------------------------------------------------------------------- *)
+(* the methods that must fail on a closed view / freed allocation (everything but len() and close()) *)
+Definition guarded (o : vop) : bool :=
+  match o with Len | Close => false | _ => true end.
